@@ -105,3 +105,22 @@ pub fn shim_dead_insert(d: &mut DeadEnds, id: String, no_loop_while_checking: Gh
 pub fn shim_count_loop(n: &mut usize)
     ensures *final(n) == *old(n) + 1,
 { unimplemented!() }
+
+// ---- the per-field memo of anonymous types (`checked: &mut Vec<&dyn Type>`) -------------------------------------------------
+/// the structs / enums a sequence / dictionary / result NODE mentions. ASSUMED: `cands` of a reference depends only on the node it
+/// points to (two references to the same anonymous type have the same nested references)
+pub uninterp spec fn node_cands(t: OpaqueDynType) -> Set<Seq<char>>;
+/// the node is a sequence, dictionary or result (an anonymous type), not a named definition
+pub uninterp spec fn is_anon_node(t: OpaqueDynType) -> bool;
+/// `type_ref.definition()`
+#[verifier::external_body]
+pub fn shim_type_definition<'a>(t: &'a TypeRef) -> (r: &'a OpaqueDynType)
+    ensures
+        is_anon_node(*r) == (spec_concrete(t) is ResultType || spec_concrete(t) is Sequence || spec_concrete(t) is Dictionary),
+        is_anon_node(*r) ==> node_cands(*r) == cands(*t),
+{ unimplemented!() }
+/// `checked.iter().any(|checked_type| std::ptr::addr_eq(*checked_type, this_type))`: true only if the very same node is in the list
+#[verifier::external_body]
+pub fn shim_already_checked(checked: &Vec<&OpaqueDynType>, this_type: &OpaqueDynType) -> (r: bool)
+    ensures r ==> exists|i: int| 0 <= i < checked@.len() && *(#[trigger] checked@[i]) == *this_type,
+{ unimplemented!() }
